@@ -1,7 +1,308 @@
-"""protocol-level jobs on the REAL group code (IntegerGroup in the exponent domain, Ed25519 classes over abstract
-points): shared by C01, C03, C04 (GC discharge inside the protocol-level checks)"""
-ORACLES = {}
+"""protocol-level jobs on the REAL group code: the real SPAKE2 classes run on the real shipped IntegerGroup objects in the
+exponent domain (symx.dlog) and on the real Ed25519 group wrapper + element classes over abstract points (symx.edabs).
+Shared by C01 (agreement), C03 (conformance), C04 (message form): this is the discharge of the abstract group contract
+GC inside the protocol-level checks, so a change in groups.py / ed25519_basic.py / ed25519_group.py that breaks one of
+those properties is reported by that property's own check."""
+import z3
+from symx.core import Ctx, SymInt, SymBytes, SymBool, Flags, T, B, EngineUnsupported, PathAbort, model_int
+from symx import loader, env
+from symx.absgroup import norm, strip_mod, norm_mod
+from symx.dlog import DlogDomain, Dlog, uninstall as dlog_uninstall
+from symx.edabs import EdAbs, AbsPt, ENCPT
+from symx.proto import Entropy, setup_hash_axioms, outcome, okind, new_instance, restore, klass, PEER, SIDE_BYTE
+
+INT = {"I1024": "parameters.i1024", "I2048": "parameters.i2048", "I3072": "parameters.i3072"}
+PNAME = {"I1024": "Params1024", "I2048": "Params2048", "I3072": "Params3072"}
 
 
 def jobs_for(pid, tier):
-    return []
+    js = []
+    groups = ["I1024", "Ed25519"] if tier == "quick" else ["I1024", "I2048", "I3072", "Ed25519"]
+    if pid == "C01":
+        for g in groups:
+            for fl in ("AB", "SS"):
+                for ser in ((0, 0), (1, 1)) if tier == "quick" else ((0, 0), (1, 0), (0, 1), (1, 1)):
+                    js.append(("rt_agree", dict(_name="real %s %s ser=%d%d" % (g, fl, ser[0], ser[1]), gname=g, fl=fl, ser=ser)))
+    if pid in ("C03", "C04"):
+        for g in groups:
+            for cls in "ABS":
+                for restored in ((0, 1) if pid == "C03" else (0,)):
+                    js.append(("rt_conform", dict(_name="real %s class %s restored=%d" % (g, cls, restored), gname=g, cls=cls,
+                                                  restored=restored, with_key=(pid == "C03"))))
+    return js
+
+
+# ------------------------------------------------------------------ worlds
+class World:
+    pass
+
+
+def make_world(ctx, gname):
+    """install the domain layer for one real shipped group; returns params object and helpers"""
+    setup_hash_axioms(ctx)
+    w = World()
+    w.gname = gname
+    if gname == "Ed25519":
+        E = loader.MODS["ed25519_basic"]
+        A = EdAbs(E)
+        A.install(ctx)
+        w.params = loader.MODS["parameters.ed25519"].ParamsEd25519
+        w.q = E.L
+        w.W = 32
+        w.A = A
+        mus = {}
+        for nm in ("M", "N", "S"):
+            el = getattr(w.params, nm)
+            mu = z3.Int("mu_" + nm)
+            ctx.side.append(mu % E.L != 0)
+            A.const[tuple(el.XYTZ)] = (mu, 0)
+            mus[nm] = mu
+        w.mu = mus
+        # contract GC3 (C05): decoding accepts exactly the canonical encodings of non-identity subgroup elements
+        VALID = z3.Function("VALID_ED", z3.IntSort(), z3.BoolSort())
+        DK = z3.Function("DLOG_ED", z3.IntSort(), z3.IntSort())
+
+        def abs_decode(b):
+            b = SymBytes.of(b)
+            if len(b) != 32:
+                raise ValueError("element must be exactly 32 bytes")
+            v = z3.simplify(b.value())
+            tab = ctx.table("edencs")
+            found = None
+            for (k, t, ev) in list(tab):          # the very encoding some element produced: that element
+                if ev.eq(v) or z3.simplify(ev).eq(v):
+                    found = (k, t)
+                    break
+            if found is None:
+                for (k, t, ev) in list(tab):
+                    if bool(SymBool(ev == v)):
+                        found = (k, t)
+                        break
+            if found is None:
+                if SymBool(VALID(v)):
+                    k = DK(v)
+                    ctx.side += [ENCPT(k % E.L, z3.IntVal(0)) == v, k % E.L != 0]
+                    tab.append((k, z3.IntVal(0), ENCPT(k % E.L, z3.IntVal(0))))
+                    found = (k, z3.IntVal(0))
+                else:
+                    raise ValueError("not a canonical encoding of a subgroup element")
+            k, t = found
+            if SymBool(z3.And(k % E.L == 0, t % 8 == 0)):
+                raise ValueError("element was Zero")
+            if SymBool(t % 8 != 0):
+                raise ValueError("element is not in the right group")
+            return E.Element(AbsPt(k, t))
+        w.saved_decode = E.bytes_to_element
+        E.bytes_to_element = abs_decode
+        w.enc = lambda log: SymBytes.from_int(_edenc(ctx, norm_mod(log, E.L), E.L), 32)
+        w.blind_log = lambda nm: mus[nm]
+        w.scalar_ref = _ed_scalar_ref
+    else:
+        G = loader.MODS["groups"]
+        g = getattr(G, gname)
+        D = DlogDomain(g, gname)
+        D.install(ctx)
+        w.params = getattr(loader.MODS[INT[gname]], PNAME[gname])
+        w.q = g.q
+        w.W = (g.p.bit_length() + 7) // 8
+        w.D = D
+        w.enc = lambda log: SymBytes.from_int(D.val_term(log, ctx), w.W)
+        w.blind_log = lambda nm: D.log_of_const(getattr(w.params, nm)._e)
+        w.scalar_ref = _int_scalar_ref
+    return w
+
+
+def _edenc(ctx, log, L):
+    tab = ctx.table("edencs")
+    for (k2, t2, v2) in tab:
+        if k2.eq(log) and z3.is_int_value(t2) and t2.as_long() == 0:
+            return v2
+    v = ENCPT(log % L, z3.IntVal(0) % 8)
+    ctx.side += [v >= 0, v < 2 ** 256]
+    tab.append((log, z3.IntVal(0), v))
+    return v
+
+
+def _int_scalar_ref(w, ent):
+    """reference derivation of the secret scalar from the entropy stream (first accepted draw)"""
+    q = w.q
+    bits = q.bit_length()
+    items = ent.calls[-1][1].items()          # the bytes of the draw (the same solver variables the code iterated over)
+    n = len(items)
+    top_bits = bits - 8 * (n - 1)
+    acc = T(items[0]) % (2 ** top_bits)       # "value mod 2^bits", written over the bytes
+    for b in items[1:]:
+        acc = acc * 256 + T(b)
+    return acc
+
+
+def _ed_scalar_ref(w, ent):
+    return ent.calls[-1][1].value()      # exponent of an order-L element: reduction mod L is immaterial
+
+
+def _pw_scalar_ref(ctx, pwlen_calls, q):
+    """w = big-endian(HKDF(pw)) mod q, from the recorded HKDF application on the password"""
+    return SymBytes.of(pwlen_calls["out"]).value() % q
+
+
+def teardown(w):
+    if w.gname == "Ed25519":
+        loader.MODS["ed25519_basic"].bytes_to_element = w.saved_decode
+        w.A.uninstall()
+    else:
+        dlog_uninstall()
+
+
+# ------------------------------------------------------------------ C01 on the real groups
+def rt_agree(J, gname, fl, ser):
+    J.bounds.update(group=gname, flavour=fl, serialize=ser, lens=dict(pw=2, idA=1, idB=1), max_draws=1)
+    J.assumptions.add("integer groups: the first entropy draw is accepted (longer reject chains are C11's subject)")
+
+    def h(ctx):
+        w = make_world(ctx, gname)
+        try:
+            pw, idA, idB = SymBytes.fresh("pw", 2), SymBytes.fresh("idA", 1), SymBytes.fresh("idB", 1)
+            eA, eB = Entropy("entA", max_calls=1), Entropy("entB", max_calls=1)
+            ca, cb = ("A", "B") if fl == "AB" else ("S", "S")
+            a = new_instance(ca, w.params, pw, idA, idB, eA)
+            b = new_instance(cb, w.params, pw, idA, idB, eB)
+            mA, mB = a.start(), b.start()
+            if ser[0]:
+                a = restore(ca, a, w.params)
+            if ser[1]:
+                b = restore(cb, b, w.params)
+            d = dict(a=a, b=b, mA=mA, mB=mB, pw=pw, idA=idA, idB=idB, w=w)
+            d["zero"] = SymBytes.of(w.params.group.Zero.to_bytes())
+            ctx.data["w"] = d
+            d["oA"] = outcome(a.finish, mB)
+            d["oB"] = outcome(b.finish, mA)
+            return okind(d["oA"]), okind(d["oB"])
+        finally:
+            teardown(w)
+
+    for r in J.explore(h, max_paths=120):
+        d = r.ctx.data.get("w")
+        J.reach(r)
+        cex = lambda m, d=d: _cex_agree(d, m, gname, fl, ser)
+        if r.kind != "ret":
+            J.claim(r, "real %s session runs without %s" % (gname, type(r.value).__name__), False, cex=cex, oracle="rt_exchange")
+            continue
+        kinds = r.value
+        if kinds == ("key", "key"):
+            J.claim(r, "real %s: keys are equal" % gname, SymBytes.of(d["oA"][1]).eq_term(d["oB"][1]), cex=cex, oracle="rt_exchange")
+        elif kinds == ("ReflectionThwarted", "ReflectionThwarted"):
+            J.claim(r, "real %s: ReflectionThwarted only when both blinded elements coincide" % gname,
+                    SymBytes.of(d["mA"])[1:].eq_term(SymBytes.of(d["mB"])[1:]), cex=cex, oracle="rt_exchange")
+        elif gname == "Ed25519" and "ValueError" in kinds and all(k in ("ValueError", "key", "ReflectionThwarted") for k in kinds):
+            conds = []
+            if kinds[0] == "ValueError":
+                conds.append(SymBytes.of(d["mB"])[1:].eq_term(d["zero"]))
+            if kinds[1] == "ValueError":
+                conds.append(SymBytes.of(d["mA"])[1:].eq_term(d["zero"]))
+            J.claim(r, "real Ed25519: ValueError only for an identity blinded element", z3.And(conds), cex=cex, oracle="rt_exchange")
+        else:
+            J.claim(r, "real %s: outcome pair %s/%s is unreachable" % ((gname,) + kinds), False, cex=cex, oracle="rt_exchange")
+
+
+def _cex_agree(d, m, gname, fl, ser):
+    if d is None:
+        return dict(group=gname, fl=fl, ser=list(ser), pw=b"pw", idA=b"a", idB=b"b", x=1, y=2)
+    q = d["w"].q
+    return dict(group=gname, fl=fl, ser=list(ser), pw=d["pw"].model_bytes(m), idA=d["idA"].model_bytes(m), idB=d["idB"].model_bytes(m),
+                x=model_int(m, d["a"].xy_scalar, 1) % q if hasattr(d["a"], "xy_scalar") else 1,
+                y=model_int(m, d["b"].xy_scalar, 2) % q if hasattr(d["b"], "xy_scalar") else 2)
+
+
+# ------------------------------------------------------------------ C03 / C04 on the real groups
+def rt_conform(J, gname, cls, restored, with_key):
+    J.bounds.update(group=gname, cls=cls, restored=restored, lens=dict(pw=2, idA=1, idB=1), max_draws=1)
+
+    def h(ctx):
+        w = make_world(ctx, gname)
+        try:
+            pw, idA, idB = SymBytes.fresh("pw", 2), SymBytes.fresh("idA", 1), SymBytes.fresh("idB", 1)
+            ent = Entropy("ent", max_calls=1)
+            a = new_instance(cls, w.params, pw, idA, idB, ent)
+            msg = SymBytes.of(a.start())
+            if restored:
+                a = restore(cls, a, w.params)
+            d = dict(a=a, msg=msg, pw=pw, idA=idA, idB=idB, ent=ent, w=w)
+            ctx.data["w"] = d
+            if with_key:
+                # the peer's message: an arbitrary accepted element, here the blinded element of an honest peer scalar
+                peer = new_instance(PEER[cls], w.params, pw, idA, idB, Entropy("pent", max_calls=1))
+                d["inbound"] = SymBytes.of(peer.start())
+                d["peer"] = peer
+                d["o"] = outcome(a.finish, d["inbound"])
+                return okind(d["o"])
+            return "started"
+        finally:
+            teardown(w)
+
+    for r in J.explore(h, max_paths=80):
+        d = r.ctx.data.get("w")
+        J.reach(r)
+        cex = lambda m, d=d: dict(group=gname, cls=cls, restored=restored, pw=d["pw"].model_bytes(m) if d else b"pw",
+                                  idA=d["idA"].model_bytes(m) if d else b"a", idB=d["idB"].model_bytes(m) if d else b"b",
+                                  x=(model_int(m, d["a"].xy_scalar, 1) % d["w"].q) if d and hasattr(d["a"], "xy_scalar") else 1)
+        if r.kind != "ret":
+            J.claim(r, "real %s start() runs without %s" % (gname, type(r.value).__name__), False, cex=cex, oracle="rt_conform")
+            continue
+        w = d["w"]
+        hk = [c for c in r.ctx.table("hkdf") if c.get("info") == b"SPAKE2 pw" and not isinstance(c["data"], bytes)]
+        J.claim(r, "real %s: one HKDF('SPAKE2 pw') application on the session password" % gname,
+                len(hk) >= 1 and all(SymBytes.of(c["data"]).eq_term(d["pw"]) is not None for c in hk), cex=cex, oracle="rt_conform")
+        if not hk or len(d["ent"].calls) != 1:
+            J.claim(r, "real %s: exactly one entropy request" % gname, False, cex=cex, oracle="rt_conform")
+            continue
+        wref = SymBytes.of(hk[0]["out"]).value() % w.q
+        xref = w.scalar_ref(w, d["ent"])
+        blind = {"A": "M", "B": "N", "S": "S"}[cls]
+        ref = SymBytes([SIDE_BYTE[cls]]) + w.enc(xref + wref * w.blind_log(blind))
+        J.claim(r, "real %s: start() message = side || enc(x*G + w*%s) with x, w by the published derivations" % (gname, blind),
+                d["msg"].eq_term(ref), cex=cex, oracle="rt_conform")
+        J.claim(r, "real %s: message is %d bytes" % (gname, 1 + w.W), len(d["msg"]) == 1 + w.W, cex=cex, oracle="rt_conform")
+        if with_key and r.value == "key":
+            yref = w.scalar_ref(w, d["peer"].entropy_f) if isinstance(d["peer"].entropy_f, Entropy) else None
+            pblind = {"A": "N", "B": "M", "S": "S"}[cls]         # the peer's blinding element = my unblinding element
+            if yref is None:
+                continue
+            peer_log = yref + wref * w.blind_log(pblind)
+            K = w.enc((peer_log - wref * w.blind_log(pblind)) * xref)
+            H = env.sha_term
+            own, body = ref[1:], d["inbound"][1:]
+            if cls == "A":
+                want = H(_cat(H(d["pw"]), H(d["idA"]), H(d["idB"]), own, body, K))
+            elif cls == "B":
+                want = H(_cat(H(d["pw"]), H(d["idA"]), H(d["idB"]), body, own, K))
+            else:
+                k1 = H(_cat(H(d["pw"]), H(d["idA"]), own, body, K))
+                k2 = H(_cat(H(d["pw"]), H(d["idA"]), body, own, K))
+                key = SymBytes.of(d["o"][1])
+                own_first = z3.Or(own.lt_term(body, True), own.eq_term(body))
+                J.claim(r, "real %s: finish() key = SHA256(SHA256(pw)||SHA256(idS)||sorted msgs||enc(x*(peer - w*S)))" % gname,
+                        z3.If(own_first, key.eq_term(k1), key.eq_term(k2)), cex=cex, oracle="rt_conform")
+                continue
+            J.claim(r, "real %s: finish() key = SHA256(SHA256(pw)||SHA256(idA)||SHA256(idB)||X*||Y*||enc(x*(peer - w*%s)))" % (gname, pblind),
+                    SymBytes.of(d["o"][1]).eq_term(want), cex=cex, oracle="rt_conform")
+
+
+def _cat(*parts):
+    acc = SymBytes([])
+    for p in parts:
+        acc = acc + SymBytes.of(p)
+    return acc
+
+
+# ------------------------------------------------------------------ oracles
+def oracle_rt_exchange(group, fl, ser, pw, idA, idB, x, y):
+    from checks.c01 import oracle_exchange
+    return oracle_exchange(fl, ser, pw, idA, idB, x, y)
+
+
+def oracle_rt_conform(group, cls, restored, pw, idA, idB, x):
+    from checks.c03 import oracle_conform
+    return oracle_conform(cls, restored, pw, idA, idB, x)
+
+
+ORACLES = dict(rt_exchange=oracle_rt_exchange, rt_conform=oracle_rt_conform)
